@@ -674,6 +674,7 @@ func c08CLI(c *core.Ctx, cs c08CLICase) {
 	if code == 0 {
 		c.Outcome("cli-exit0")
 		c.Nontrivial()
+		c08CLIComplete(c, cs, dir, wit, so.Bytes())
 		return
 	}
 	if so.Len() > 0 {
@@ -687,6 +688,81 @@ func c08CLI(c *core.Ctx, cs c08CLICase) {
 		return
 	}
 	c.Outcome("cli-error-reported")
+}
+
+// c08CLIComplete decides "complete output" for an exit-0 run of the bkl tool: the same files are
+// taken through the library calls the tool is documented to make (FileMatch, MergeFile[Layers],
+// Output) in this process; the tool may exit 0 only if the library reports no error, and what it
+// wrote (stdout, or the -o file) must be exactly the library's bytes.
+func c08CLIComplete(c *core.Ctx, cs c08CLICase, dir, wit string, stdout []byte) {
+	if cs.Tool != "bkl" {
+		return
+	}
+	skipParent, outPath := false, ""
+	var inputs []string
+	for i := 0; i < len(cs.Args); i++ {
+		a := cs.Args[i]
+		switch {
+		case a == "-P":
+			skipParent = true
+		case a == "-o" && i+1 < len(cs.Args):
+			outPath = cs.Args[i+1]
+			i++
+		case strings.HasPrefix(a, "-"):
+			return
+		default:
+			inputs = append(inputs, a)
+		}
+	}
+	if len(inputs) == 0 {
+		return
+	}
+	class, want := c08LibBudget(c, c08FileBudget*20, wit, cs, func() ([]byte, error) {
+		p := newParser()
+		format := ""
+		for _, in := range inputs {
+			real, f, err := bkl.FileMatch(filepath.Join(dir, in))
+			if err != nil {
+				return nil, err
+			}
+			if format == "" && outPath == "" {
+				format = f
+			}
+			if skipParent {
+				err = p.MergeFile(real)
+			} else {
+				err = p.MergeFileLayers(real)
+			}
+			if err != nil {
+				return nil, err
+			}
+		}
+		if format == "" && outPath != "" {
+			format = strings.TrimPrefix(filepath.Ext(outPath), ".")
+		}
+		if format == "" {
+			format = "json-pretty"
+		}
+		return p.Output(format)
+	})
+	switch class {
+	case "error":
+		c.Outcome("CLI-EXIT0-LIBRARY-ERROR")
+		c.Fail("cli-complete-output", "exit-0-although-library-reports-error", wit, map[string]any{"stdout": headTailS(string(stdout), 500)})
+	case "ok":
+		got := stdout
+		if outPath != "" {
+			if !filepath.IsAbs(outPath) {
+				outPath = filepath.Join(dir, outPath)
+			}
+			got, _ = os.ReadFile(outPath)
+		}
+		c.Validated()
+		if !bytes.Equal(got, want) {
+			c.Outcome("CLI-OUTPUT-INCOMPLETE")
+			c.Fail("cli-complete-output", "differs-from-library-output", wit, map[string]any{"tool": headTailS(string(got), 500), "library": headTailS(string(want), 500)})
+		}
+	}
 }
 
 func crashFrame(stderr string) string {
